@@ -1,25 +1,20 @@
 #!/bin/bash
 # seedmatrix.sh [seed ids...] : for each confirmed seeded change, applies it to a scratch
 # copy of /repo and runs every check; prints which properties/rules report it.
-# Nothing is applied to /repo itself. Seeds are processed 6 at a time.
+# Nothing is applied to /repo itself. Seeds are processed 8 at a time.
 export GOFLAGS=-mod=mod GOPROXY=off GOSUMDB=off GOTOOLCHAIN=local; unset GOWORK
 cd /verif
 if [ "$1" = "--one" ]; then
   s=$2
-  props=$(python3 -c "import json;print(' '.join(c['property_id'] for c in json.load(open('MANIFEST.json'))['checks']))")
   own=${s%%-*}
   scratch=$(mktemp -d /tmp/mut.XXXXXX); cp -r /repo/. $scratch/; rm -rf $scratch/.git
   (cd $scratch && patch -p1 -s < /verif/seeded/$s/patch.diff) || { echo "$s: PATCH FAILED"; rm -rf $scratch; exit 0; }
-  vd=$(mktemp -d /tmp/mutv.XXXXXX); cp known_findings.json $vd/
-  hits=""; ownhit=no
-  for p in $props; do
-    out=$(${ARGVERIF:-/verif/bin/argverif} -repo $scratch -verif $vd -property $p 2>&1)
-    rules=$(echo "$out" | grep -oE "rule=[A-Z0-9-]+" | sort -u | sed 's/rule=//' | tr '\n' ',' )
-    if [ -n "$rules" ]; then hits="$hits $p[${rules%,}]"; [ "$p" = "$own" ] && ownhit=yes; fi
-  done
+  hits=$(/verif/tools/allprops.sh $scratch); ownhit=no
+  case " $hits" in *" $own["*) ownhit=yes;; esac
+  hits=" $hits"
   echo "$s own-property-check-fires=$ownhit :$hits"
-  rm -rf $scratch $vd
+  rm -rf $scratch
   exit 0
 fi
 seeds=${*:-$(ls seeded)}
-printf '%s\n' $seeds | xargs -P 6 -I{} /verif/tools/seedmatrix.sh --one {} | sort
+printf '%s\n' $seeds | xargs -P 8 -I{} /verif/tools/seedmatrix.sh --one {} | sort
